@@ -127,7 +127,9 @@ impl Knobs {
     };
     c.spurious_rate = self.spurious_rate;
     // (half of all runs, decided by the run's seed: a knob, not a fault)
-    c.rates = FaultRates { cas_weak: self.cas_weak, spurious_park_return: self.park_return, post_write_yield: self.seed & 1 == 0 };
+    c.rates = FaultRates { cas_weak: self.cas_weak, spurious_park_return: self.park_return, post_write_yield: self.seed & 1 == 0,
+      // (a quarter of the non-PCT runs; under PCT a spinning top-priority thread must yield)
+      lazy_spin: (self.seed >> 1) & 3 == 0 && !matches!(self.mode, ModeSer::Pct(..)) };
     c.max_steps = self.max_steps as usize;
     c.record_trace = record_trace;
     c
